@@ -11,10 +11,10 @@ echo "--- patch: $(grep -c '^[+-][^+-]' $d/patch.diff) changed lines in $(grep -
 echo "--- baseline suite in worktree (with change)"
 base=$(python3 tools/check_baseline.py --repo $wt | head -3); echo "$base"
 echo "--- demo with change"
-(cd $wt && NUMBA_DISABLE_JIT=1 PYTHONPATH=$wt timeout 600 /venv/bin/python -W ignore demo.py > /tmp/demo_with.log 2>&1); with=$?; tail -3 /tmp/demo_with.log
+(cd $wt && NUMBA_DISABLE_JIT=1 PYTHONPATH=$wt timeout 600 /venv/bin/python -W ignore demo.py > /tmp/demo_with_$id.log 2>&1); with=$?; tail -3 /tmp/demo_with_$id.log
 git -C $wt apply -R /verif/$d/patch.diff
 echo "--- demo without change"
-(cd $wt && NUMBA_DISABLE_JIT=1 PYTHONPATH=$wt timeout 600 /venv/bin/python -W ignore demo.py > /tmp/demo_without.log 2>&1); without=$?; tail -2 /tmp/demo_without.log
+(cd $wt && NUMBA_DISABLE_JIT=1 PYTHONPATH=$wt timeout 600 /venv/bin/python -W ignore demo.py > /tmp/demo_without_$id.log 2>&1); without=$?; tail -2 /tmp/demo_without_$id.log
 git -C $wt apply /verif/$d/patch.diff
 echo "demo exit with=$with without=$without"
 echo "--- our check ($prop quick) against the changed tree"
